@@ -62,6 +62,9 @@ class FsIntrinsics(Intrinsics):
         return super().dotted(eng, d)
 
     def class_attr(self, eng, st, cls, attr, node):
+        if cls == 'FileComparison' and isinstance(node, ast.Constant):
+            # enum.Enum: the class attribute is the member object, not the value it was given
+            return self.enum_member(eng, st, attr)
         if cls == 'FileBuilder' and attr == '_IS_WINDOWS':
             return False
         if cls == 'Cache' and attr == '_CACHE_FILE_VERSION':
